@@ -258,7 +258,7 @@ let call_fn (id : n) (args : value list) : fres =
   | 21, [_] -> FOk (VStr (str_of_ascii "hello"))
   | 22, [_] -> FOk (VStr (str_of_ascii "ptrm"))
   | 23, [_; VStr s] -> FOk (VStr (s @ s))
-  | _, _ -> FPanic      (* reflect: wrong argument count or type *)
+  | _, _ -> FBadArgs    (* reflect: wrong argument count or type *)
 
 let cause_s = function CNoSuchValue -> "nosuch" | CUser k -> "user" ^ string_of_int (int_of_n k) | COther -> "err"
 let log_s (lg : (n * value list) list) : string =
@@ -267,6 +267,12 @@ let log_s (lg : (n * value list) list) : string =
     if i >= 7 && i <= 9 then
       (match args with VInt (_, k) :: _ -> Some (Printf.sprintf "%d:%s" i (string_of_z k)) | _ -> Some (Printf.sprintf "%d:?" i))
     else None) (List.rev lg))
+
+let rec nat_of_int (i : int) : nat = if i <= 0 then O else S (nat_of_int (i - 1))
+let rcause_s = function
+  | RC c -> cause_s c | RNotFound -> "notfound" | RNoValue -> "novalue" | RWriter -> "writer" | RFuel -> "fuel" | RSyntax -> "err"
+let lerr_s = function LDup -> "dup" | LScan e -> "scan-" ^ serr_s e | LEval -> "eval"
+let render_fuel = nat_of_int 400
 
 let run_case (line : string) =
   Buffer.clear b;
@@ -299,6 +305,35 @@ let run_case (line : string) =
          | Ok v -> add ("OK " ^ enc_value v ^ " LOG " ^ log_s lg)
          | Err c -> add ("ERR " ^ cause_s c ^ " LOG " ^ log_s lg)
          | Unmodelled -> add "UNMODELLED"))
+   | ["render"; aprefix; tprefix; tags; voids; files; tname; meth; glob; runs] ->
+     let mt = parse_methods meth in
+     let methods (ty : n) (ptr : bool) = match Hashtbl.find_opt mt (int_of_n ty, ptr) with Some l -> l | None -> [] in
+     let aprefix = str_of_field aprefix and tprefix = str_of_field tprefix in
+     let tags = strs_of_field tags and voids = strs_of_field voids in
+     let files = List.map (fun f -> match String.split_on_char '~' f with
+         | [nm; src] -> (str_of_field nm, str_of_field src) | _ -> failwith "file") (split '|' files) in
+     let global = match parse_value glob with VNil -> SData (VMap []) | v -> SData v in
+     let runs = List.map (fun r -> match String.split_on_char '@' r with
+         | [d; b] -> let b = int_of_string b in (parse_value d, if b < 0 then None else Some (nat_of_int b))
+         | _ -> failwith "run") (split '!' runs) in
+     let (tps, err) = add_files is_space to_lower is_letter is_udigit methods call_fn tags voids tprefix aprefix global [] files in
+     (match err with
+      | Some e -> add ("LOADERR " ^ lerr_s e)
+      | None ->
+        (match List.find_opt (fun (k, _) -> k = str_of_field tname) tps with
+         | None -> add "GETERR notfound"
+         | Some (_, tp) ->
+           let m = mk_mgr tprefix aprefix global tps in
+           let results = run_history is_space to_lower is_letter is_udigit methods call_fn render_fuel m tp runs [] in
+           if List.exists (fun ((_, r), _) -> r = RUnmodelled) results then add "UNMODELLED"
+           else
+             List.iteri (fun i ((o, r), lg) ->
+               if i > 0 then add " ## ";
+               (match r with
+                | ROk -> add "OK "
+                | RErr c -> add ("ERR " ^ rcause_s c ^ " ")
+                | RUnmodelled -> add "UNM ");
+               p_str o; add (" LOG " ^ log_s lg)) results))
    | ["parse"; src] ->
      (match parse_code is_letter is_udigit (str_of_field src) with
       | Some e -> add "OK "; p_expr e
